@@ -45,10 +45,6 @@ theorem walkCaps_enc (g : List Cap) (hw : g.all wfCap = true) (fuel : Nat) (hf :
       simp [walkCaps, tk, dr, decodeCap_value c hw.1, ih hw.2 f hf']
       rw [if_neg (by omega), if_neg (by omega)]
 
-/-- one parameter = one well-formed group that fits the length field of the format -/
-def wfGroup (ext : Bool) (g : List Cap) : Bool :=
-  g.all wfCap && decide (groupLen g < (if ext then 65536 else 256))
-
 theorem encGroup_length (ext : Bool) (g : List Cap) :
     (encGroup ext g).length = groupLen g + (if ext then 3 else 2) := by
   cases ext <;> simp [encGroup, groupLen] <;> omega
@@ -217,11 +213,6 @@ theorem flatten_singletons (caps : List Cap) : (caps.map (fun c => [c])).flatten
   induction caps with
   | nil => rfl
   | cons c t ih => simp [ih]
-
-/-- an OPEN that has a wire form in ExaBGP's layout -/
-def wfOpen (o : OpenMsg) : Bool :=
-  decide (o.version = 4) && wfFixed o.myAs o.hold o.bgpId
-    && wfGroups (useExtended o.caps) (o.caps.map (fun c => [c]))
 
 theorem decodeOpen_encode (o : OpenMsg) (h : wfOpen o = true) : decodeOpen (encodeOpen o) = .ok o := by
   simp only [wfOpen, Bool.and_eq_true, decide_eq_true_eq] at h
